@@ -130,7 +130,7 @@ def compare_case(x, y):
         # the data cells and the per-tick simulation are compared.
         if y.get("DV") and x["R"] == "R ok":
             cells = [int(l.split()[2], 2) for l in x["mach"] if l.startswith("D ")]
-            want = [int(v) for l in y["DV"] for v in l.split()[2].split(",") if v != ""]
+            want = [int(v) for l in y["DV"] for v in (l.split() + ["", ""])[2].split(",") if v != ""]
             if cells != want:
                 out.append(("semantic", {"source": src, "cp": "data", "tick": -1, "stims": [], "impl": "data cells %s" % cells,
                                          "ref": "data cells %s" % want, "entryfirst": fact(y, "entryfirst"), "litjump": fact(y, "litjump")}))
